@@ -98,9 +98,9 @@ PROPS = {
     },
     "C14": {
         "corr_filters": [],
-        "hand_suites": ["order"],
+        "hand_suites": ["order", "ranktests"],
         "not_covered": ["full functional correctness of quickselect (partition invariant) unless Props/C14/SelectCorrect.lean proves it: otherwise it rests on the exhaustive weak-ordering correspondence + sort oracle, labelled as a test",
-                        "ranks() top level (sort-based; only handle_rank_ties is modelled)"],
+                        "Data::ranks is hand-modelled (Model/RankTests.lean, stable insertion sort) and tied by the ranktests correspondence; sort_by's algorithm itself is not modelled"],
         "assumptions": ["slice sort_by is modelled by a stable merge sort where it occurs"],
     },
     "C15": {
@@ -111,16 +111,20 @@ PROPS = {
     },
     "C16": {
         "corr_filters": ["crate::stats_tests::fisher", "Hypergeometric::"],
-        "not_covered": ["two-sided Fisher search correctness (EPSILON-slack scans), KS lattice DP and Marsaglia-Tsang-Wang: exact-oracle search only", "floating-point accuracy of the hypergeometric masses"],
+        "hand_suites": ["ranktests"],
+        "also_props": ["C18/RankTests", "C17/RankTests"],
+        "not_covered": ["two-sided Fisher search correctness (EPSILON-slack scans): exact-oracle search only; the KS lattice DP (Schroer-Trenkler) and the Marsaglia-Tsang-Wang matrix power are hand-modelled and tied by the ranktests correspondence, but no theorem relates them to the exact null probability", "floating-point accuracy of the hypergeometric masses"],
         "assumptions": [],
     },
     "C17": {
         "corr_filters": ["crate::stats_tests", "StudentsT::cdf", "Normal::cdf", "ChiSquared::sf", "FisherSnedecor::sf"],
-        "not_covered": ["accuracy of the reference distributions' cdfs (C01/C11 territory)", "mannwhitneyu / ks top-level functions are generic over iterators and not translated: statistic formulas for them are search-only"],
+        "hand_suites": ["ranktests"],
+        "not_covered": ["accuracy of the reference distributions' cdfs (C01/C11 territory)", "mannwhitneyu / ks top-level functions are hand-modelled (Model/RankTests.lean) and tied by the ranktests correspondence; rankdata_mwu is private and observed only through mannwhitneyu"],
         "assumptions": [],
     },
     "C18": {
         "corr_filters": ["crate::stats_tests"],
+        "hand_suites": ["ranktests"],
         "not_covered": ["invariance up to rounding in floats (tolerances are search-side)", "termination of the Kolmogorov series"],
         "assumptions": [],
     },
